@@ -72,6 +72,22 @@ CLAIMED = {
             "Trusted: Coq kernel; hand model coq/Model/Vmap.v of VmapBatchHandler._handle_modular_vmap after batch axes are moved to the front, and of right-aligned size-1 broadcasting; TFP's "
             "'one independent draw per output element' contract is an oracle; harness/worker_vmap.py decodes the parameter elements behind each output element of a parameter-echo sampler. No axioms.",
             "Coq proof over a broadcasting model + parameter-echo correspondence (vm_compute) + comparison with jax.vmap", "7/C08"),
+    "C11": ("Theorem C11_adev_unbiased: for EVERY expectation program of flip sites with enumeration / REINFORCE / measure-valued estimators composed in any order with arbitrary "
+            "deterministic dual-number code (HOAS), all parameters in the open domain: mean primal = E[f], mean tangent = derivative of E[f] (tangent of the exact dual expectation), by "
+            "induction over the program over canonical rationals; enumeration is exact with zero variance (C11_enum_exact); reparameterised sites give the pathwise derivative for the noise drawn. "
+            "NOT mechanised (partial): continuous score-function sites (normal/uniform REINFORCE), geometric, multivariate normal; batched (lane Rao-Blackwellised) sites; "
+            "seed/jit/modular_vmap invariance is exercised only by the correspondence on enumeration-only programs.",
+            "Trusted: Coq kernel; hand model coq/Model/Adev.v of the CPS interpreter's sample branch and of FlipEnum / REINFORCE / FlipMVD.prim_jvp_estimate (the pure continuation "
+            "modelled as a fresh primal sample); dual arithmetic stands for differentiation (sound for the rational programs generated); harness/worker_adev.py scripts site outcomes by replacing "
+            "adev.flip and building a REINFORCE primitive around a scripted sampler with the public reinforce(); tolerance 5e-5. No axioms.",
+            "Coq proof by induction over HOAS expectation programs (field identities in Qc) + scripted-outcome correspondence (vm_compute)", "7/C11"),
+    "C15": ("Theorems: for every primitive whose JVP rule meets JAX's contract and every mix of symbolic-zero / float0 / materialised tangents, the interpreter's default branch "
+            "(canonicalise, all-zero shortcut, instantiate) returns jax.jvp's primal and tangent (C15_default_is_jvp); cond hands lax.cond the reversed branch list, selecting the same branch "
+            "as cond_p's index (C15_cond_either_branch); estimate returns the value. The per-primitive JVP rules are JAX's (oracle); whole-program agreement with jax.jvp / jax.grad / f on "
+            "scalar, array and pytree arguments is checked by the correspondence.",
+            "Trusted: Coq kernel; small hand model coq/Model/AdevDet.v of the default branch, tangent helpers and cond branch; harness/worker_adev.py compares 15 deterministic program "
+            "templates with jax.jvp/jax.grad (tolerance 1e-5) and the canonicalisation helpers with the model. No axioms.",
+            "Coq proof over an abstract-primitive model + differential comparison with jax.jvp/jax.grad", "7/C15"),
     "C09": ("Theorems: accept iff log u < min(0, log_alpha) (all kernels); the MH balance identity a*min(1,b/a) = b*min(1,a/b); the weight mh uses is the MH log ratio of the "
             "regenerate-from-prior proposal (via C04); mala's log_alpha is the MH log ratio of the Langevin proposal with drift eps^2/2*grad, scale eps, one noise per coordinate; "
             "n leapfrog steps are reversible under momentum flip for ANY gradient function over ANY commutative ring; rejected moves return the input; unselected coordinates untouched. "
